@@ -12,7 +12,6 @@ import (
 	"golang.org/x/tools/go/ssa"
 )
 
-func floorF(t *Term) float64 { return math.Floor(math.Float64frombits(t.C)) }
 
 func (e *Exec) ifaceArgs(v Value) []Iface {
 	s := v.(Slice)
@@ -343,7 +342,7 @@ func (e *Exec) formatValue(sp fmtSpec, t types.Type, v Value, depth int) Str {
 			}
 		case u.Info()&types.IsFloat != 0:
 			f := v.(*Term)
-			if f.IsConst() {
+			if f.IsConst() && !e.recordFloats {
 				format := "%"
 				if sp.minus {
 					format += "-"
